@@ -18,6 +18,18 @@ CHECKS = {
    ref="5/C19"),
 }
 
+CHECKS['C13'] = dict(
+   text="Three bound layers. (1) OutputStream.tla: TLC checks that offset/line/column of the stream machine equal the positions "
+        "recomputed from the final string for every push sequence up to the bound. (2) Tabstops.tla: TLC checks that the field "
+        "counter machine (base += largest+1 per value) satisfies the statement's numbering clauses for every generated "
+        "abbreviation; each abbreviation with its expected (number, placeholder) sequence is replayed through expand() in "
+        "html/xml/jsx/vue/pug/haml/slim. (3) every invocation of output.text/output.field of a sample of those runs (and of "
+        "stylesheet runs) is recorded and validated as a trace against the OutputStream actions by Trace_OutputStream.tla.",
+   note="Bounded. Callbacks that return text of other length are exercised, callbacks that rewrite the newline itself are not. "
+        "Text with fields only on leaves. Trusted: TLC, Json/IOUtils modules, the 40-line recorder.",
+   technique="TLA+ design model + spec->code replay of generated behaviours + code->spec trace validation of callback events",
+   ref="5/C13")
+
 NOT_YET = {}
 
 def main():
